@@ -33,6 +33,7 @@ func (e *Engine) VerifyFunction(fn *ssa.Function, genPanics bool) (u *Unit, err 
 	st := &State{pc: True, comps: map[string]Term{}}
 	alloc0 := u.comp(st, "alloc")
 	u.comp(st, "epoch")
+	u.comp(st, "vepoch")
 	fr := &Frame{fn: fn, vals: map[ssa.Value]*Val{}, u: u, top: true}
 	c := e.specs.Contracts[name]
 	fr.contract = c
@@ -87,6 +88,11 @@ func (e *Engine) VerifyFunction(fn *ssa.Function, genPanics bool) (u *Unit, err 
 		}
 		if !c.Inline {
 			u.frameObligations(fn, c, fr, entry, exit)
+			for _, g := range []string{"epoch", "vepoch"} {
+				if !c.mentionsGhost(g) {
+					u.oblige(exit, "modifies", name, "ghost_"+g+"_unchanged", fmt.Sprintf("contracts:%d", c.Line), Eq(u.comp(exit, g), u.comp(entry, g)), nil)
+				}
+			}
 		}
 	}
 	return u, nil
